@@ -237,6 +237,17 @@ class FileCacheOps(Harness):
                 if e[0] in ('write_atomic', 'link', 'symlink'):
                     n_tile_writes += 1
             ok = AND(ok, n_tile_writes >= 1)
+            # a (sym)link can only be created on a free name: if the tile location was seen to
+            # exist (as a file or as a link), it must have been unlinked before linking -- otherwise
+            # link() fails with EEXIST (which the code ignores) and the OLD tile stays visible
+            for i, e in enumerate(ev):
+                if e[0] in ('link', 'symlink') and _always(path_eq(e[2], expected)):
+                    occupied = False
+                    for j in range(i):
+                        if ev[j][0] in ('exists', 'islink') and _always(path_eq(ev[j][1], expected)):
+                            occupied = OR(occupied, ev[j][2])
+                    unl = any(ev[k][0] in ('unlink', 'remove') and _always(path_eq(ev[k][1], expected)) for k in range(i))
+                    ok = AND(ok, IMPLIES(occupied, unl))
             # a symlink at the tile location is removed before the tile file is written
             for i, e in enumerate(ev):
                 if e[0] == 'write_atomic':
